@@ -23,13 +23,21 @@ pub trait VxStrTrim { fn vx_trim_end_matches_char(&self, c: char) -> (r: &str) e
 impl VxStrTrim for str { open spec fn vx_chars(&self) -> Seq<char> { self@ } #[verifier::external_body] fn vx_trim_end_matches_char(&self, c: char) -> (r: &str) { self.trim_end_matches(c) } }
 // ---- url::Url (trusted model of the WHATWG serialisation for URLs with a host and no credentials):
 //      as_str() = scheme "://" host [":" port] path ["?" query] ["#" fragment]; hosts and port texts contain no '/'
-pub struct Url { pub scheme: String, pub host: String, pub port: Option<u16>, pub path: String, pub query: Option<String>, pub fragment: Option<String> }
+pub struct Url { pub scheme: String, pub userinfo: Option<String>, pub host: String, pub port: Option<u16>, pub path: String, pub query: Option<String>, pub fragment: Option<String> }
 pub uninterp spec fn spec_port_text(p: u16) -> Seq<char>;
 pub broadcast axiom fn axiom_port_text(p: u16) ensures #[trigger] spec_port_text(p).len() >= 1, spec_port_text(p).last() != '/';
 pub open spec fn sep() -> Seq<char> { seq![':', '/', '/'] }
 pub open spec fn spec_authority(u: Url) -> Seq<char> { u.scheme@ + sep() + u.host@ + (match u.port { Some(p) => seq![':'] + spec_port_text(p), None => Seq::empty() }) }
+// the origin of a URL (WHATWG URL 4.7 / HTML 7.5 serialisation of a tuple origin): scheme "://" host [":" port], which is what
+// `spec_authority` spells; schemes with a tuple origin, as the url crate implements it
+pub open spec fn tuple_origin_scheme(s: Seq<char>) -> bool { s == "https"@ || s == "http"@ || s == "wss"@ || s == "ws"@ || s == "ftp"@ }
+pub struct UrlOrigin { pub of: Ghost<Url> }
+impl UrlOrigin {
+    // url crate: Origin::ascii_serialization (trusted accessor): scheme://host[:port] of a tuple origin ("null" for an opaque one)
+    #[verifier::external_body] pub fn ascii_serialization(&self) -> (r: String) ensures tuple_origin_scheme(self.of@.scheme@) ==> r@ == spec_authority(self.of@) { unimplemented!() }
+}
 pub open spec fn spec_url_string(u: Url) -> Seq<char> {
-    spec_authority(u) + u.path@ + (match u.query { Some(q) => seq!['?'] + q@, None => Seq::empty() }) + (match u.fragment { Some(x) => seq!['#'] + x@, None => Seq::empty() })
+    u.scheme@ + sep() + (match u.userinfo { Some(c) => c@ + seq!['@'], None => Seq::empty() }) + u.host@ + (match u.port { Some(p) => seq![':'] + spec_port_text(p), None => Seq::empty() }) + u.path@ + (match u.query { Some(q) => seq!['?'] + q@, None => Seq::empty() }) + (match u.fragment { Some(x) => seq!['#'] + x@, None => Seq::empty() })
 }
 pub open spec fn url_wf(u: Url) -> bool { u.host@.len() >= 1 && u.host@.last() != '/' }
 impl Url {
@@ -38,6 +46,7 @@ impl Url {
     #[verifier::external_body] pub fn host_str(&self) -> (r: Option<&str>) ensures r matches Some(h) && h@ == self.host@ { unimplemented!() }
     #[verifier::external_body] pub fn port(&self) -> (r: Option<u16>) ensures r == self.port { unimplemented!() }
     #[verifier::external_body] pub fn path(&self) -> (r: &str) ensures r@ == self.path@ { unimplemented!() }
+    #[verifier::external_body] pub fn origin(&self) -> (r: UrlOrigin) ensures r.of@ == *self { unimplemented!() }
 }
 pub enum Cow<'a, T> { Borrowed(&'a T), Owned(T) }
 impl<'a, T> Cow<'a, T> { pub open spec fn val(self) -> T { match self { Cow::Borrowed(r) => *r, Cow::Owned(v) => v } } }
@@ -49,22 +58,7 @@ pub struct UnverifiedAssetLink<'a> { pub sha256_cert_fingerprint: Vec<u8>, pub h
 impl<'a> UnverifiedAssetLink<'a> { pub fn sha256_cert_fingerprint(&self) -> (r: &[u8]) ensures r@ == self.sha256_cert_fingerprint@ { self.sha256_cert_fingerprint.as_slice() } }
 //@ source cl passkey-client/src/lib.rs
 //@ extract cl enum Origin
-// the caller's origin as a string: for a web origin (a URL that is an origin: path "/", no query, no fragment) scheme://host[:port]
-pub open spec fn is_origin_url(u: Url) -> bool { url_wf(u) && u.path@ == seq!['/'] && u.query is None && u.fragment is None }
 pub open spec fn android_prefix() -> Seq<char> { seq!['a','n','d','r','o','i','d',':','a','p','k','-','k','e','y','-','h','a','s','h',':'] }
-pub proof fn lemma_trim_origin(u: Url)
-    requires is_origin_url(u),
-    ensures spec_trim_end(spec_url_string(u), '/') == spec_authority(u),
-{
-    broadcast use axiom_port_text;
-    let a = spec_authority(u);
-    assert(spec_url_string(u) =~= a + seq!['/']);
-    assert((a + seq!['/']).drop_last() =~= a);
-    assert(a.len() > 0 && a.last() != '/') by {
-        match u.port { Some(p) => { assert(a.last() == spec_port_text(p).last()); } None => { assert(a =~= u.scheme@ + sep() + u.host@); assert(a.last() == u.host@.last()); } }
-    }
-    assert(spec_trim_end(a + seq!['/'], '/') == spec_trim_end(a, '/'));
-}
 //@ extract cl impl Display for Origin
 //@   header impl Origin<'_>
 //@   rule R27
